@@ -156,6 +156,7 @@ LOSSLESS_DECODE = {
     "std::slice::<impl [T]>::to_vec", "std::result::Result::map", "std::ops::Try::branch", "std::ops::FromResidual::from_residual",
     "<std::net::Ipv4Addr as std::convert::From<u32>>::from", "<std::net::Ipv6Addr as std::convert::From<u128>>::from",
     "nom::bytes::complete::take", "std::ops::Fn::call", "std::ops::FnMut::call_mut", "std::ops::FnOnce::call_once",
+    "nom::combinator::map",
 }
 INVERSE_OF = {
     "<std::net::Ipv4Addr as std::convert::From<u32>>::from": "std::net::Ipv4Addr::octets",
@@ -222,15 +223,15 @@ def decoder_transforms(an, prog):
                 if not name:
                     continue
                 names = []
-                for _, tt, c in arm_calls(an, b, blk, tb):
-                    if c.local and c.kind == "Item" and not c.trait and c.path in prog.bodies and c.path != c04.DN_PARSE:
-                        # private helper: its own calls are the transform chain
-                        hb = prog.bodies[c.path]
-                        for _, _, hc in hb.calls():
-                            if hc is not None:
-                                names.append(hc.npath if (hc.npath in INVERSE_OF or not hc.trait) else hc.nsyn)
-                        continue
-                    names.append(c.npath if (c.npath in INVERSE_OF or not c.trait) else c.nsyn)
+
+                def add_calls(body, calls, depth):
+                    for c in calls:
+                        if c.local and c.kind == "Item" and not c.trait and c.path in prog.bodies and c.path != c04.DN_PARSE and depth < 3:
+                            # private helper: its own calls (and those of the helpers it delegates to) are the chain
+                            add_calls(prog.bodies[c.path], [hc for _, _, hc in prog.bodies[c.path].calls() if hc is not None], depth + 1)
+                            continue
+                        names.append(c.npath if (c.npath in INVERSE_OF or not c.trait) else c.nsyn)
+                add_calls(b, [c for _, tt, c in arm_calls(an, b, blk, tb)], 0)
                 out[name[0]] = names
             break
     return out
